@@ -223,6 +223,10 @@ def main(tier):
                      {'cc': 'gcc', 'cflags': ('-O1',), 'drv_args': (2 if tier == 'quick' else 3, secs), 'timeout': secs + 60, 'w2c2_args': ('-d', dmode)}))
     jobs.append(('padded-memarg', padded_memarg_batch(), {'cc': 'gcc', 'cflags': ('-O1',), 'timeout': 900}))
     jobs.append(('huge-static-offsets', huge_offset_batch(), {'cc': 'gcc', 'cflags': ('-O1',), 'timeout': 900}))
+    # the pretty-printed output format (-p): every load/store flavour, the memarg encodings and one history exploration again
+    jobs.append(('flavours -p', flavour_batch(), {'cflags': ('-O0',), 'timeout': 900, 'w2c2_args': ('-p',)}))
+    jobs.append(('padded-memarg -p', padded_memarg_batch(), {'cc': 'gcc', 'cflags': ('-O1',), 'timeout': 900, 'w2c2_args': ('-p',)}))
+    jobs.append(('history mem=(1, 3) -p', history_batch((1, 3), min(depth, 4), budget), {'cc': 'gcc', 'cflags': ('-O1',), 'drv_args': (min(depth, 4), secs), 'timeout': secs + 60, 'w2c2_args': ('-p',)}))
     # (c) store/store/load sequences inside one function, optimising compilers
     allpairs = [(a, b) for a in sorted(STORES) for b in sorted(STORES)]
     third = (len(allpairs) + 2) // 3
